@@ -229,6 +229,12 @@ func runC05(env *lib.Env, rep *lib.Report) {
 					r.check(qw, &qQuery{items: star, from: from, orderBy: s, limit: lo[0], offset: lo[1], limitFirst: lo[2] == 1}, "limit-offset", "")
 				}
 			}
+			// (4b) WHERE x LIMIT/OFFSET without ORDER BY (the window counts matching rows, not scanned ones)
+			for _, lo := range qs.limits {
+				for _, cond := range repConds[1:] {
+					r.check(qw, &qQuery{items: star, from: from, where: cond, limit: lo[0], offset: lo[1], limitFirst: lo[2] == 1}, "where+limit-offset", "")
+				}
+			}
 			// (6) queries longer than the scanner's 1024-byte read buffer: a long AND/OR chain followed by ORDER BY
 			// and LIMIT/OFFSET, shifted blank by blank so that each trailing keyword straddles a refill boundary
 			if len(rows) >= 2 {
